@@ -604,3 +604,28 @@ func (r *Run) UnderRoot(e sysinject.Event) bool {
 	}
 	return false
 }
+
+// ---------------------------------------------------------------- wall-clock budget (never a verdict)
+
+// Budget bounds the number of helper runs of one test function by wall-clock time (env VERIF_BUDGET_S,
+// else def): enumerations stop early and say so in the evidence instead of running into the driver's
+// timeout on a loaded machine. It only ever reduces coverage; it never decides an outcome.
+type Budget struct {
+	start time.Time
+	limit time.Duration
+}
+
+// NewBudget starts the clock. share scales the configured budget (tests sharing one unit split it).
+func NewBudget(def time.Duration, share float64) *Budget {
+	lim := def
+	if v := os.Getenv("VERIF_BUDGET_S"); v != "" {
+		var s float64
+		if _, err := fmt.Sscanf(v, "%g", &s); err == nil && s > 0 {
+			lim = time.Duration(s * float64(time.Second))
+		}
+	}
+	return &Budget{start: time.Now(), limit: time.Duration(float64(lim) * share)}
+}
+
+// Exceeded reports whether the budget is used up.
+func (b *Budget) Exceeded() bool { return time.Since(b.start) > b.limit }
